@@ -56,8 +56,14 @@ def _drop_sample(plan, i):
     fam = p2["family"]
     if fam["datafit"] == "QuadraticSVC":
         return None
+    ynew = np.delete(np.array(p2["data"]["y"], dtype=float), i, axis=0)
+    kind = p2["data"].get("kind")
+    if kind == "bin" and len(np.unique(ynew)) < 2:
+        return None        # both classes must remain
+    if kind == "surv" and not np.any(ynew[:, 1] != 0):
+        return None        # at least one observed event must remain
     p2["data"]["X"] = np.delete(X, i, axis=0).tolist()
-    p2["data"]["y"] = np.delete(np.array(p2["data"]["y"], dtype=float), i, axis=0).tolist()
+    p2["data"]["y"] = ynew.tolist()
     da = fam.get("dargs") or {}
     if "sample_weights" in da:
         da["sample_weights"] = np.delete(np.array(da["sample_weights"]), i).tolist()
